@@ -100,9 +100,13 @@ char* lp_assignment_to_string(const lp_assignment_t* m) {
 
 void lp_assignment_set_value(lp_assignment_t* m, lp_variable_t x, const lp_value_t* value) {
   if (value) {
+    // Copy first: value may be one of the values of m (moved by the resize,
+    // or the very value that is being replaced)
+    lp_value_t value_copy;
+    lp_value_construct_copy(&value_copy, value);
     lp_assignment_ensure_size(m, x + 1);
     lp_value_destruct(m->values + x);
-    lp_value_construct_copy(m->values + x, value);
+    m->values[x] = value_copy;
   } else {
     if (m->size > x) {
       if ((m->values + x)->type != LP_VALUE_NONE) {
